@@ -88,7 +88,7 @@ CHECKS["C18"] = {
         H("c18.VH_rdp_token", {}, {}, covers=["accepted", "rejected"]),
         H("c18.VH_rdp_negreq_fields", {}, {}, covers=["accepted"]),
         H("c18.VH_winbox_auth", {"L": 44}, {"params": {"L": 300}, "unwind": 320}, covers=["accepted", "rejected"], weight=3),
-        H("c18.VH_winbox_fields", {"UMIN": 1, "UMAX": 6}, {"UMIN": 1, "UMAX": 9}, covers=["accepted"], weight=2),
+        H("c18.VH_winbox_fields", {"UMIN": 1, "UMAX": 6}, {"UMIN": 1, "UMAX": 9}, covers=["accepted", "romon"], weight=2),
         H("c18.VH_winbox_boundary", {"params": {}, "unwind": 600}, {"params": {}, "unwind": 600}, covers=["accepted"]),
     ],
     "level_text": "bounded model checking of every exported FromBytes/ToBytes pair over the real message sizes: for every byte string within max+2 bytes, acceptance implies a legal length and ToBytes(FromBytes(b)) == b (refuted with a fresh symbolic index, so no per-byte bound); serialise-then-parse for messages built from arbitrary field values",
